@@ -79,6 +79,10 @@ func runSubsys(sc subsysCfg, tier string) int {
 				}
 			}
 			for _, f := range monitor(run, blk) {
+				if f.Prop == "COUNT" {
+					r.Count(f.Sig, 1)
+					continue
+				}
 				if f.Prop != sc.id {
 					r.Diag(f.Sig + ": " + f.What)
 					continue
@@ -257,5 +261,75 @@ func checkC15(tier string) int {
 			return wrapStateful(mon.C15)
 		},
 		gates: map[string]int{"ok:ETH_LOCK": 2, "ok:ETH_REDEEM": 1, "ok:ERC20_LOCK": 1, "ok:ETH_REPORT_FINALITY_MINT": 8},
+	}, tier)
+}
+
+func checkC17(tier string) int {
+	return runSubsys(subsysCfg{
+		id:      "C17",
+		rule:    "seeded histories mixing native traffic with OLVM plain transfers, contract creations and calls that succeed, revert, run out of gas or fail the consensus pre-checks (nonce behind, gas below intrinsic); half of the histories carry at most one OLVM transaction per block so that ledger deltas are attributable. Every block: sender debit against gasUsed x price (+ value), nonce +1, recipient credit of plain transfers, fee records against the gas used of all executed transactions, no change on pre-check failure; after every block the balance and nonce of every EVM-visible account are read through the EVM state adapter (a private copy's state objects) and compared with the native records of the dump; a case is one block; non-trivial = the block contains an OLVM transaction; distinct by (seed, height, app hash)",
+		assume:  []string{"ResponseDeliverTx.GasUsed is the gas the fee step charges"},
+		scripts: []string{"olvm", "transfers", "delegation"},
+		nhQ:     8, nhT: 50, blQ: 48, blT: 130,
+		params: func(i int, hseed int64) world.Params {
+			return world.Params{Frankenstein: 1, NumGenesisVals: 4, NumEthUsers: 4}
+		},
+		tune: func(cfg *drive.Cfg, i int) {
+			cfg.Honest = false // pre-check failures reach a block only through a byzantine proposer
+			if i%2 == 0 {
+				cfg.Scripts = []string{"olvm-one", "transfers"}
+			}
+		},
+		newMon: func(w *world.World) func(run *hist.Runner, blk *hist.Block) []mon.Finding {
+			return func(run *hist.Runner, blk *hist.Block) []mon.Finding {
+				fs := mon.C17(blk)
+				// the EVM view of every account that has an account record or is an eth user
+				var addrs []string
+				seen := map[string]bool{}
+				for _, u := range w.EthUsers {
+					seen[fmt.Sprintf("%x", []byte(u.Addr))] = true
+				}
+				for k := range blk.Cur {
+					if len(k) == 7+20 && k[:7] == "keeper_" {
+						seen[fmt.Sprintf("%x", k[7:])] = true
+					}
+				}
+				for a := range seen {
+					addrs = append(addrs, a)
+				}
+				resp, err := run.Reps[0].Box.Do(proto.Cmd{Op: "evm", Addrs: addrs})
+				if err == nil && resp.Evm != nil {
+					fs = append(fs, mon.C17View(blk.Cur, resp.Evm, blk.H)...)
+				}
+				return fs
+			}
+		},
+		gates: map[string]int{"ok:OLVM": 15},
+		nontriv: func(blk *hist.Block) bool {
+			for _, t := range blk.Txs {
+				if t.Kind == "OLVM" {
+					return true
+				}
+			}
+			return false
+		},
+	}, tier)
+}
+
+func checkC19(tier string) int {
+	return runSubsys(subsysCfg{
+		id:      "C19",
+		rule:    "seeded histories with 4-7 active validators (so that the ceiling and the strict inequalities matter), several allegations against different validators open at once and decided in the same block, yes/no/stalled plans, votes and allegations by outsiders, double votes, stake/unstake/withdraw attempts by frozen validators, releases, re-staking after release, stake changes between vote and tally, block times around the release time; every verdict is re-derived with exact rationals from the recorded and the block's successful votes of distinct active validators against the configured shares (required = ceil(active x vote share), active = validators elected in that block), penalties against the configured percentage of the previous stake, the bounty credit against the penalty share, releases against freeze time + release time; a case is one block; non-trivial = an allegation record, freeze record or verdict changed; distinct by (seed, height, app hash)",
+		assume:  []string{"'currently active' = the validators elected in the block of the tally, as the mechanism text states"},
+		scripts: []string{"evidence", "stakingb", "transfers"},
+		nhQ:     8, nhT: 50, blQ: 48, blT: 150,
+		params: func(i int, hseed int64) world.Params {
+			return world.Params{Frankenstein: int64(i % 2), NumGenesisVals: 4 + i%4, NumCandidates: 1, TopValidators: 8, ReleaseTime: int64(i % 3 / 2)}
+		},
+		newMon: func(w *world.World) func(run *hist.Runner, blk *hist.Block) []mon.Finding {
+			return wrapStateful(mon.C19)
+		},
+		gates: map[string]int{"ok:ALLEGATION": 2, "ok:ALLEGATION_VOTE": 4},
+		jumps: true,
 	}, tier)
 }
